@@ -1,6 +1,7 @@
 import Comdex.Lemmas.LendRates
 import Comdex.Lemmas.Accrual
 import Comdex.Lemmas.AccrualErr
+import Comdex.Lemmas.VaultAccrual
 /-!
 # C18 — Interest and savings accrual is non-negative, monotone and zero over zero time
 
@@ -32,6 +33,15 @@ Property clause → theorem
 * two consecutive intervals ≤ combined + rounding  → `more_frequent_accrual_not_more` (explicit error term `Accrual.subaddErr`)
 * tracker: whole units paid, fraction carried      → `tracker_never_negative`, `whole_units_paid_fraction_carried`
 * hypotheses are consistent                        → `hypotheses_consistent`; `calcRewards_ok` links `calcRewards` and `interest`
+(c) the bookkeeping around (b) for vaults (`Model/VaultAccrual.lean`: which interval is accrued — vault stamp, or the pair's stamp
+    when the vault's `BlockHeight` flag is 0 —, tracker, whole units to the vault, stamps written), relative to the same hypotheses
+* a calculation books exactly the accrued amount, renews the stamp      → `vault_calc_books_interest`
+* after it the flag is consumed, the next interval starts where it ended → `vault_next_interval_starts_here`
+* two consecutive calculations book no more than a single one over the combined interval (+ explicit slack), from ANY start
+  stamp incl. `BlockHeight = 0`                                           → `accrual_subadditive`
+* "triggering interest calculation more often cannot make a position owe more" at the level of `MsgVaultInterestCalc`
+                                                                          → `more_frequent_triggering_not_more`
+* fee switched off and on again: the span without fee is not accrued     → `fee_toggle_restarts_clock`
 -/
 namespace Comdex.C18
 open Comdex Comdex.LendRates
@@ -349,6 +359,83 @@ theorem more_frequent_accrual_not_more (ops : FloatOps) (n : Int) (lsr : Dec) (s
 
 end floating
 
+/-! # part c: the vault bookkeeping around `CalculationOfRewards` (state level) -/
+section vault
+open Comdex.Accrual Comdex.VaultAccrual
+
+/-- **One calculation** (`CalculateVaultInterest` with a running fee): the accrued interval is non-negative, what the
+position owes (whole units on the vault + tracker fraction) grows by exactly `interest` over that interval, the vault is
+stamped with the current height and time, nothing else changes, and the tracker stays in `[0, 1)`. -/
+theorem vault_calc_books_interest (ops : FloatOps) (s : St) (ctx : Ctx) (debt bh bt : Int) (s' : St)
+    (ha : Active s) (hf : 0 ≤ s.pair.fee) (hd : 0 ≤ debt) (htr : 0 ≤ s.tracker.getD 0)
+    (h : calcWith ops s ctx debt bh bt = .ok s') :
+    0 ≤ ctx.now - since s.pair.bt bh bt ∧
+    booked s' = booked s + interest ops debt s.pair.fee (ctx.now - since s.pair.bt bh bt) ∧
+    s'.vault.bh = ctx.height ∧ s'.vault.bt = ctx.now ∧ s'.pair = s.pair ∧ s'.appWl = s.appWl ∧
+    s'.vault.amountOut = s.vault.amountOut ∧ s.vault.ia ≤ s'.vault.ia ∧
+    0 ≤ s'.tracker.getD 0 ∧ s'.tracker.getD 0 < Dec.one :=
+  calcWith_active ops s ctx debt bh bt s' ha hf hd htr h
+
+/-- **The `BlockHeight = 0` flag is consumed by every calculation** (chain heights are non-zero): whatever the start stamp,
+the next calculation accrues from the time of this one — in particular never again from the pair's `BlockTime`. -/
+theorem vault_next_interval_starts_here (ops : FloatOps) (s : St) (ctx : Ctx) (debt bh bt : Int) (s' : St)
+    (ha : Active s) (hf : 0 ≤ s.pair.fee) (hd : 0 ≤ debt) (htr : 0 ≤ s.tracker.getD 0) (hh : ctx.height ≠ 0)
+    (h : calcWith ops s ctx debt bh bt = .ok s') :
+    since s'.pair.bt s'.vault.bh s'.vault.bt = ctx.now ∧ Active s' :=
+  next_interval_starts_here ops s ctx debt bh bt s' ha hf hd htr hh h
+
+/-- **Sub-additivity at the level of the records.** From any state (any stamp, incl. `BlockHeight = 0`, any tracker in
+`[0,1)`), two consecutive calculations at `t₁ ≤ t₂` leave the position owing (vault interest + tracker fraction) at most what a
+single calculation at `t₂` leaves, plus the float slack `subaddErr` of `more_frequent_accrual_not_more`, plus the interest over
+`[t₁,t₂]` on the increase `n₂ − n` of the debt the caller hands in (zero when the same debt is passed). -/
+theorem accrual_subadditive (ops : FloatOps) (s s1 s2 s' : St) (c1 c2 : Ctx) (n n2 : Int)
+    (ha : Active s) (hf : 0 ≤ s.pair.fee) (hn : 0 ≤ n) (hn63 : n ≤ 2 ^ 63) (hn2 : 0 ≤ n2)
+    (htr : 0 ≤ s.tracker.getD 0) (hh : c1.height ≠ 0) (h12 : c1.now ≤ c2.now)
+    (e1 : calcWith ops s c1 n s.vault.bh s.vault.bt = .ok s1)
+    (e2 : calcWith ops s1 c2 n2 s1.vault.bh s1.vault.bt = .ok s2)
+    (e' : calcWith ops s c2 n s.vault.bh s.vault.bt = .ok s') :
+    ((booked s2 : Int) : ℚ) ≤ ((booked s' : Int) : ℚ)
+      + subaddErr ops.E (aF n) (ops.pow (xF s.pair.fee) (yF (c2.now - since s.pair.bt s.vault.bh s.vault.bt)))
+      + ((interest ops n2 s.pair.fee (c2.now - c1.now) - interest ops n s.pair.fee (c2.now - c1.now) : Int) : ℚ) :=
+  two_calcs_le_one ops s s1 s2 s' c1 c2 n n2 ha hf hn hn63 hn2 htr hh h12 e1 e2 e'
+
+/-- **Triggering `MsgVaultInterestCalc` more often cannot make a position owe more** (beyond the float slack): two
+messages at `t₁ ≤ t₂` against one at `t₂`. The debt a message hands in is principal + whole units already booked, so the second
+message legitimately accrues on the whole units the first one booked; when the first one stayed below one unit — the case in
+which a stale `BlockHeight = 0` flag would make the pair's interval count twice — the bound is the float slack alone. -/
+theorem more_frequent_triggering_not_more (ops : FloatOps) (s s1 s2 s' : St) (c1 c2 : Ctx)
+    (ha : Active s) (hf : 0 ≤ s.pair.fee) (hn : 0 ≤ s.vault.amountOut + s.vault.ia) (hn63 : s.vault.amountOut + s.vault.ia ≤ 2 ^ 63)
+    (htr : 0 ≤ s.tracker.getD 0) (hh : c1.height ≠ 0) (h12 : c1.now ≤ c2.now)
+    (e1 : msgCalcWith ops s c1 = .ok s1) (e2 : msgCalcWith ops s1 c2 = .ok s2) (e' : msgCalcWith ops s c2 = .ok s') :
+    ((booked s2 : Int) : ℚ) ≤ ((booked s' : Int) : ℚ)
+      + subaddErr ops.E (aF (s.vault.amountOut + s.vault.ia))
+          (ops.pow (xF s.pair.fee) (yF (c2.now - since s.pair.bt s.vault.bh s.vault.bt)))
+      + ((interest ops (s.vault.amountOut + s1.vault.ia) s.pair.fee (c2.now - c1.now)
+          - interest ops (s.vault.amountOut + s.vault.ia) s.pair.fee (c2.now - c1.now) : Int) : ℚ) ∧
+    (s1.vault.ia = s.vault.ia →
+      ((booked s2 : Int) : ℚ) ≤ ((booked s' : Int) : ℚ)
+        + subaddErr ops.E (aF (s.vault.amountOut + s.vault.ia))
+            (ops.pow (xF s.pair.fee) (yF (c2.now - since s.pair.bt s.vault.bh s.vault.bt)))) := by
+  obtain ⟨_, _, _, _, _, _, c7, c8, _⟩ := calcWith_active ops s c1 _ _ _ s1 ha hf hn htr e1
+  have hn2 : 0 ≤ s1.vault.amountOut + s1.vault.ia := by rw [c7]; linarith
+  have main := two_calcs_le_one ops s s1 s2 s' c1 c2 _ _ ha hf hn hn63 hn2 htr hh h12 e1 e2 e'
+  rw [c7] at main
+  refine ⟨main, fun h => ?_⟩
+  rw [h] at main
+  simpa using main
+
+/-- **Fee switched off and on again** (`WasmUpdatePairsVault`): the sweep books the interest up to the switch-off and flags
+the vault with `BlockHeight = 0`; after the fee is switched on again the vault's next interval starts at that moment. -/
+theorem fee_toggle_restarts_clock (s sa sb : St) (ca cb : Ctx) (f : Dec) (pw pw' : Option Int) (x : Dec)
+    (hwl : s.appWl = true) (hst : s.pair.stable = false) (hf : f ≠ 0)
+    (hx : calcRewards s.vault.amountOut s.pair.fee (ca.now - since s.pair.bt s.vault.bh s.vault.bt) pw = .ok x)
+    (ua : updateFee s ca 0 pw = some sa) (ub : updateFee sa cb f pw' = some sb) :
+    sa.vault.bh = 0 ∧ sa.pair.fee = 0 ∧ sb.pair.fee = f ∧ sb.vault.bh = 0 ∧ sb.pair.bt = cb.now ∧
+    since sb.pair.bt sb.vault.bh sb.vault.bt = cb.now :=
+  toggle_restarts_clock s sa sb ca cb f pw pw' x hwl hst hf hx ua ub
+
+end vault
+
 /-! ## non-vacuity: the hypotheses of the theorems are satisfiable on ordinary values -/
 section examples
 open Comdex.Accrual
@@ -382,6 +469,26 @@ example : (ofBits 4607632778762754458).map (fun p => calcRewards 1000000000 1000
     = some (.ok 100000000000000089406967163) := by decide +kernel
 example : xF 100000000000000000 = 4953959590107546 * 2 ^ 1022 := by decide +kernel
 example : yF 15778800 = 2 ^ 1073 := by decide +kernel
+
+/-- a vault opened while the fee was zero (`BlockHeight = 0`), fee 1 % now running since the pair's stamp: the first
+`MsgVaultInterestCalc` accrues from the PAIR's time (12331972 s), books 1644691 whole units, carries 0.877…, stamps the vault;
+the second one, 9 s later, accrues those 9 s only (values of `math.Pow` as observed on the real run) -/
+example : VaultAccrual.msgCalc
+      ⟨true, ⟨10000000000000000, false, 5, 1859790144⟩, ⟨422156853, 0, 0, 1862824643⟩, none⟩ ⟨1872122116, 101⟩
+      (ofBits 4607199964491087685)
+    = .ok ⟨true, ⟨10000000000000000, false, 5, 1859790144⟩, ⟨422156853, 1644691, 101, 1872122116⟩, some 877342361258342862⟩ := by
+  decide +kernel
+example : VaultAccrual.msgCalc
+      ⟨true, ⟨10000000000000000, false, 5, 1859790144⟩, ⟨422156853, 1644691, 101, 1872122116⟩, some 877342361258342862⟩
+      ⟨1872122125, 102⟩ (ofBits 4607182418812797555)
+    = .ok ⟨true, ⟨10000000000000000, false, 5, 1859790144⟩, ⟨422156853, 1644693, 102, 1872122125⟩, some 79990571421140188⟩ := by
+  decide +kernel
+/-- the single calculation over the combined interval from the same start state: it books slightly MORE (…620259… vs …571421…) -/
+example : VaultAccrual.msgCalc
+      ⟨true, ⟨10000000000000000, false, 5, 1859790144⟩, ⟨422156853, 0, 0, 1862824643⟩, none⟩ ⟨1872122125, 102⟩
+      (ofBits 4607199964503917623)
+    = .ok ⟨true, ⟨10000000000000000, false, 5, 1859790144⟩, ⟨422156853, 1644693, 102, 1872122125⟩, some 79990620259195566⟩ := by
+  decide +kernel
 
 end examples
 end Comdex.C18
